@@ -16,10 +16,11 @@
   Parameters supplied by the harness (CPython, not signac): `re.search`, `float(str)`,
   `math.isclose`, and for the command line syntax `int(str)`, `float(str)`, `json.loads`.
 
-  Deliberate deviations (stated in the report):
-    * `_root_keys` descends into `$not`  (planned fix F-6b; the unchanged code does not);
+  Notes:
+    * `_root_keys` descends into `$not` (fix F-6b, in /repo as b9f492d); `rootKeysOld` /
+      `findJobsOld` keep the former rule to state that it was wrong;
     * `groupby` resolves dotted keys through nested mappings and strips only a real
-      `sp.`/`doc.` namespace  (planned fix F-7);
+      `sp.`/`doc.` namespace (fix F-7, in /repo as 86782f6);
     * `$where` is outside the modelled grammar (`Err.unsupported`);
     * the primary-key shortcut `_id` of `_find_result` is unreachable through
       `Project.find_jobs` (every key is prefixed first) and is not modelled.
@@ -450,7 +451,7 @@ end
 def rootOf (key : String) : String := String.ofList (headNode key.toList)
 
 mutual
-  /-- `_root_keys` (descending into `$not` as well: planned fix F-6b) -/
+  /-- `_root_keys` (descending into `$not` as well: fix F-6b) -/
   def rootKeys : Flt → List String
     | .mk atoms n a o =>
       atoms.map (fun kv => rootOf kv.1) ++ rootKeysOpt n ++ rootKeysOptList a ++ rootKeysOptList o
@@ -466,7 +467,7 @@ mutual
 end
 
 mutual
-  /-- `_root_keys` of the unchanged code: `$not` is reported as a key and not descended -/
+  /-- `_root_keys` before the fix F-6b: `$not` is reported as a key and not descended -/
   def rootKeysOld : Flt → List String
     | .mk atoms n a o =>
       atoms.map (fun kv => rootOf kv.1) ++ (match n with | none => [] | some _ => ["$not"])
@@ -643,7 +644,7 @@ def findJobs (P : Params) (c : Corpus) (filter : JVal) : Except Err (List JobId)
     | .error e => .error e
     | .ok f => findFlt P c f
 
-/-- the unchanged code's decision whether documents are indexed (for the F-6b carve-out) -/
+/-- the decision whether documents are indexed as it was before the fix F-6b (kept to state the defect) -/
 def findJobsOld (P : Params) (c : Corpus) (filter : JVal) : Except Err (List JobId) :=
   if falsy filter then .ok (c.map (·.id))
   else
@@ -940,7 +941,7 @@ def groupKeysOf : JVal → Option GroupKeys
 def isDocKey (key : String) : Bool :=
   key.toList.contains '.' && String.ofList (headNode key.toList) = "doc"
 
-/-- `_strip_prefix` after the planned fix F-7: only a real namespace is stripped -/
+/-- `_strip_prefix` (fix F-7): only a real namespace is stripped -/
 def stripPrefix (key : String) : String :=
   let cs := key.toList
   let h := String.ofList (headNode cs)
